@@ -10,4 +10,4 @@ for u in allocate hashtab objstack vlobject yaep; do
   gcc -g ${OPT:--O1} -fsanitize=address,undefined -fno-omit-frame-pointer -std=gnu90 -I"$W" -I"$src" -c "$src/$u.c" -o "$W/$u.o" -w
 done
 gcc -g ${OPT:--O1} -fsanitize=address,undefined -I"$src" "$drv" "$W"/*.o -o "$W/drv" -w "$@"
-ASAN_OPTIONS=${ASAN_OPTIONS:-detect_leaks=1} "$W/drv"
+ASAN_OPTIONS=${ASAN_OPTIONS:-detect_leaks=1} "$W/drv" $DRV_ARGS
